@@ -117,8 +117,11 @@ def check_cvc5(solver, timeout_ms):
     return "unknown", err or out, dt
 
 
-def discharge(vc, timeout_ms=20000, use_cvc5=True, cross=False):
-    """-> dict(status, backend, seconds, model, reason)"""
+def discharge(vc, timeout_ms=20000, use_cvc5=True, cross=False, light=False):
+    """-> dict(status, backend, seconds, model, reason).  light: z3 only with a short budget (used once a contract already has several undecided
+    obligations: its verdict is undecided either way, and the second solver / component attempts would only cost minutes)"""
+    if light:
+        timeout_ms, use_cvc5 = min(timeout_ms, 2000), False
     status, info, dt, s = check_z3(vc.hyps, vc.goal, timeout_ms)
     res = {"name": vc.name, "status": status, "backend": "z3", "seconds": round(dt, 4), "model": None, "reason": None}
     if status == "refuted":
@@ -135,7 +138,7 @@ def discharge(vc, timeout_ms=20000, use_cvc5=True, cross=False):
                 res.update(status="refuted", backend="cvc5", reason="cvc5: sat")
             else:
                 res["reason"] = f"z3: {info}; cvc5: {info2}"
-        if res["status"] == "unknown":
+        if res["status"] == "unknown" and not light:
             # second attempt on the goal's own symbol-connected component of the hypotheses (sound in both directions, see goal_component)
             kept, dropped = goal_component(vc.hyps, vc.goal)
             if dropped:
